@@ -414,8 +414,8 @@ def cli_case(draw):
     system = draw(st.sampled_from(["topdown", "inorder", "gap"]))
     arity = 5 if system == "inorder" else 2
     tree = S.tree_model(max_tokens=7, disc=0.8 if system == "gap" else 0.0, max_arity=arity, max_root=(None if arity > 2 else 2),
-                        words=st.sampled_from(["a", "b", "Haus", "x1", "ä"]), labels=st.sampled_from(["S", "NP", "VP", "VPinf", "Größe"]),
-                        pos=st.sampled_from(["NN", "VB", "ART"]), edges=st.sampled_from(["HD", "NK", "SB", "--"]))
+                        words=st.sampled_from(["a", "b", "Haus", "x1", "ä", "%", "100%", "%s"]), labels=st.sampled_from(["S", "NP", "VP", "VPinf", "Größe"]),
+                        pos=st.sampled_from(["NN", "VB", "ART", "$%"]), edges=st.sampled_from(["HD", "NK", "SB", "--"]))
     return {"system": system, "trees": draw(S.corpus(tree, 1, 4)), "pos": draw(st.booleans()), "topnode": draw(st.integers(0, 2)) == 0}
 
 
